@@ -67,8 +67,54 @@ def RSubj.observable (r : RSubj) : Obsv := fun s =>
       -- the subscriber ended during the replay: take its forwarder down again
       .obsIsSub s fun alive => if alive then .done else subUnsub h
 
-/-! ### AsyncSubject = Subject.take_last(1) -/
-def asyncObservable (sj : Subj) : Obsv := stdOp (kTakeLast 1) sj.observable
+/-! ### AsyncSubject (src/subjects/async_subject.rs): the subject owns `last_item` and `ended` -/
+structure ASubj where
+  inner : Subj
+  lastItem : Nat    -- cell: Option<Item>
+  ended : Nat       -- cell: Option<Ended>;  Completed ↦ `mComplete`, Failed(e) ↦ `mErr e`
+deriving Inhabited
+
+/-- `if self.ended.read().is_some() { return }  *self.last_item.write() = Some(item)` -/
+def ASubj.next (a : ASubj) (d : Data) : Prog :=
+  .cellRead a.ended false fun en =>
+    match Data.optDec en with
+    | some _ => .done
+    | none => .cellWrite a.lastItem false (Data.optEnc (some d)) .done
+
+/-- the `ended` write guard is held over the test and the store, released before the broadcast -/
+def ASubj.error (a : ASubj) (e : Nat) : Prog :=
+  .lockAcq (.cell a.ended) true <| .cellRead a.ended true fun en =>
+    match Data.optDec en with
+    | some _ => .lockRel (.cell a.ended) .done
+    | none =>
+      .cellWrite a.ended true (Data.optEnc (some (.mErr e))) <| .lockRel (.cell a.ended) <|
+      a.inner.error e
+
+def ASubj.complete (a : ASubj) : Prog :=
+  .lockAcq (.cell a.ended) true <| .cellRead a.ended true fun en =>
+    match Data.optDec en with
+    | some _ => .lockRel (.cell a.ended) .done
+    | none =>
+      .cellWrite a.ended true (Data.optEnc (some .mComplete)) <| .lockRel (.cell a.ended) <|
+      .cellRead a.lastItem false fun li =>
+        (match Data.optDec li with
+         | some item => a.inner.next item
+         | none => .done) ;;
+        a.inner.complete
+
+/-- recorded error → `s.error`; completed → `s.next(last)` (if any), `s.complete`; otherwise the observer goes
+    straight into the inner Subject (`subject.observable().inner_subscribe(s)`: no forwarder) -/
+def ASubj.observable (a : ASubj) : Obsv := fun s =>
+  .cellRead a.ended false fun en =>
+    match Data.optDec en with
+    | some (.mErr e) => .obsError s e .done
+    | some _ =>
+      .cellRead a.lastItem false fun li =>
+        (match Data.optDec li with
+         | some item => .obsNext s item .done
+         | none => .done) ;;
+        .obsComplete s .done
+    | none => a.inner.observable.sub s
 
 /-! ### operators whose items are Observables: window_with_count, group_by
     (a Subject travelling in a cell is encoded as the list of its four ids) -/
